@@ -250,3 +250,354 @@ def R5(vc):
     for y in ld.fn(reg, cause, _Container(excluded)):
         yielded.append(y)
     return ('done', len(yielded))
+
+
+# =============================================================================================== A5
+# Independent references (no kopf code, no `jsonpatch`/`jsonpointer` library).
+def merge7386(target, patch):
+    """RFC 7386 section 2 (MergePatch), verbatim; returns a new value."""
+    if isinstance(patch, dict):
+        target = dict(target) if isinstance(target, dict) else {}
+        for name, value in patch.items():
+            if value is None:
+                target.pop(name, None)
+            else:
+                target[name] = merge7386(target.get(name), value)
+        return target
+    return copy.deepcopy(patch)
+
+
+class PatchError(Exception):
+    """The JSON patch does not apply to the document (RFC 6902: the whole patch fails)."""
+
+
+def _pointer(path):
+    """RFC 6901: '' is the root; otherwise '/'-prefixed reference tokens with ~1 -> '/', then ~0 -> '~'."""
+    if path == '':
+        return []
+    if not isinstance(path, str) or not path.startswith('/'):
+        raise PatchError(f'bad pointer {path!r}')
+    return [t.replace('~1', '/').replace('~0', '~') for t in path[1:].split('/')]
+
+
+def _index(token, size, allow_end):
+    if token == '-' and allow_end:
+        return size
+    if not token.isdigit() or (len(token) > 1 and token[0] == '0'):
+        raise PatchError(f'bad array index {token!r}')
+    i = int(token)
+    if i > size or (i == size and not allow_end):
+        raise PatchError(f'array index {i} out of range')
+    return i
+
+
+def _walk(doc, tokens):
+    for t in tokens:
+        if isinstance(doc, dict):
+            if t not in doc:
+                raise PatchError(f'no member {t!r}')
+            doc = doc[t]
+        elif isinstance(doc, list):
+            doc = doc[_index(t, len(doc), False)]
+        else:
+            raise PatchError(f'cannot descend into a scalar at {t!r}')
+    return doc
+
+
+def _get(doc, path):
+    return _walk(doc, _pointer(path))
+
+
+def _add(doc, path, value):
+    tokens = _pointer(path)
+    if not tokens:
+        return value
+    parent = _walk(doc, tokens[:-1])
+    if isinstance(parent, dict):
+        parent[tokens[-1]] = value
+    elif isinstance(parent, list):
+        parent.insert(_index(tokens[-1], len(parent), True), value)
+    else:
+        raise PatchError('add into a scalar')
+    return doc
+
+
+def _remove(doc, path):
+    tokens = _pointer(path)
+    if not tokens:
+        raise PatchError('removing the root')
+    parent = _walk(doc, tokens[:-1])
+    if isinstance(parent, dict):
+        if tokens[-1] not in parent:
+            raise PatchError(f'remove: no member {tokens[-1]!r}')
+        del parent[tokens[-1]]
+    elif isinstance(parent, list):
+        del parent[_index(tokens[-1], len(parent), False)]
+    else:
+        raise PatchError('remove from a scalar')
+    return doc
+
+
+def apply6902(doc, ops):
+    """RFC 6902 section 4: add / remove / replace / move / copy / test, applied in order to a copy of `doc`."""
+    doc = copy.deepcopy(doc)
+    for op in ops:
+        kind, path = op['op'], op['path']
+        if kind == 'add':
+            doc = _add(doc, path, copy.deepcopy(op['value']))
+        elif kind == 'remove':
+            doc = _remove(doc, path)
+        elif kind == 'replace':
+            _get(doc, path)                                   # the target location MUST exist
+            doc = _add(_remove(doc, path), path, copy.deepcopy(op['value'])) if path else copy.deepcopy(op['value'])
+        elif kind == 'move':
+            if (path + '/').startswith(op['from'] + '/') and path != op['from']:
+                raise PatchError('move into its own child')
+            value = _get(doc, op['from'])
+            doc = _add(_remove(doc, op['from']), path, value)
+        elif kind == 'copy':
+            doc = _add(doc, path, copy.deepcopy(_get(doc, op['from'])))
+        elif kind == 'test':
+            if _canon(_get(doc, path)) != _canon(op['value']):
+                raise PatchError('test failed')
+        else:
+            raise PatchError(f'unknown op {kind!r}')
+    return doc
+
+
+def _prune(v):
+    """Normal form for "up to the presence of empty mappings": mapping members that are (recursively) empty mappings
+    are dropped; list elements are normalised but never dropped."""
+    if isinstance(v, dict):
+        out = {k: _prune(x) for k, x in v.items()}
+        return {k: x for k, x in out.items() if not (isinstance(x, dict) and not x)}
+    if isinstance(v, list):
+        return [_prune(x) for x in v]
+    return v
+
+
+def _canon(v):
+    """JSON text with sorted keys: 1, 1.0, true and "1" are all different, as in JSON."""
+    return json.dumps(v, sort_keys=True)
+
+
+def _fresh(v):
+    """A copy without any sharing between sub-values (copy.deepcopy keeps aliases; JSON documents have none)."""
+    return json.loads(json.dumps(v))
+
+
+def similar(a, b):
+    return _canon(_prune(a)) == _canon(_prune(b))
+
+
+def in_type_change_class(body, patch):
+    """F-C18-2's class: somewhere the merge-patch has a MAPPING where the body has a present value that is not a mapping."""
+    if not isinstance(patch, dict):
+        return False
+    if not isinstance(body, dict):
+        return True
+    return any(k in body and isinstance(v, dict) and in_type_change_class(body[k], v) for k, v in patch.items())
+
+
+def in_library_diff_class(body, target):
+    """F-C18-3's class: the third-party diff is itself wrong for (body -> the CORRECT target): jsonpatch.from_diff
+    raises, or its ops -- applied by the independent RFC 6902 interpreter -- do not yield that target exactly."""
+    import jsonpatch
+    for t in (target, _prune(target)):
+        try:
+            ops = jsonpatch.JsonPatch.from_diff(_fresh(body), _fresh(t)).patch
+            if _canon(apply6902(body, ops)) != _canon(t):
+                return True
+        except Exception:
+            return True
+    return False
+
+
+# -- transformation functions: total, and insensitive to the presence of empty mappings
+def fn_append(body):
+    if isinstance(body.get('a'), list):
+        body['a'].append(1)
+    else:
+        body['a'] = [1]
+
+
+def fn_set(body):
+    if not isinstance(body.get('b'), dict):
+        body['b'] = {}
+    body['b']['~x'] = 'set'
+
+
+def fn_delete(body):
+    body.pop('a/b', None)
+    if isinstance(body.get('a'), dict):
+        body['a'].pop('b', None)
+
+
+A5_LEAVES = [None, 0, 1, '', 'x', [], [0], {}]
+A5_KEYS = ['a', 'b', 'a/b', '~x']
+A5_FNS = [(), (fn_append,), (fn_set,), (fn_delete,), (fn_set, fn_delete, fn_append)]
+_ABSENT = object()
+
+
+def a5_universe():
+    """Yields (tag, body, patch, fns): see the `universe` text of A5."""
+    L, K = A5_LEAVES, A5_KEYS
+    one = [_ABSENT] + L + [{k: v} for k in K for v in L]
+    # A: one top-level key, value absent / leaf / one-member mapping on both sides, every fn set
+    for t in K:
+        for bv in one:
+            for pv in one:
+                for fns in A5_FNS:
+                    yield 'A', ({} if bv is _ABSENT else {t: bv}), ({} if pv is _ABSENT else {t: pv}), fns
+    # B: nested merge with siblings: two members below one top-level key
+    small = [None, 1, 'x', {}]
+    for k1, k2 in [('a', 'b'), ('a/b', '~x')]:
+        for b1 in L:
+            for b2 in L:
+                nested = [{k1: p} for p in small] + [{k2: p} for p in small] + [{k1: p, k2: q} for p in small for q in small]
+                for pn in nested:
+                    yield 'B', {'a': {k1: b1, k2: b2}}, {'a': pn}, ()
+    # C: two top-level keys (cross-key effects of the diff: moves/copies), with and without fns
+    vals = [_ABSENT, None, 1, 'x', [0], {}, {'b': 1}]
+    for v1 in vals:
+        for v2 in vals:
+            for w1 in vals:
+                for w2 in vals:
+                    body = {k: v for k, v in (('a', v1), ('a/b', v2)) if v is not _ABSENT}
+                    patch = {k: v for k, v in (('a', w1), ('a/b', w2)) if v is not _ABSENT}
+                    for fns in ((), (fn_delete, fn_append)):
+                        yield 'C', body, patch, fns
+    for body, patch in A5_DIRECTED:
+        yield 'L', body, patch, ()
+
+
+A5_DIRECTED = [      # L: list diffs -- multi-element lists, removed values re-added elsewhere, number-like keys
+    ({'l': ['p', 'q'], 'm': {}}, {'l': [], 'm': {'k': 'p'}}),
+    ({'l': ['p', 'q'], 'm': {}}, {'l': [], 'm': {'k': 'q'}}),
+    ({'l': ['p', 'q']}, {'l': [], 'x': 'q', 'y': 'p'}),
+    ({'l': ['p', 'q', 'p']}, {'l': ['p'], 'x': 'p'}),
+    ({'a': [0, 1, 2]}, {'a': [2, 1, 0]}),
+    ({'a': [0, 1, 2]}, {'a': [1]}),
+    ({'a': [0, 1, 2], 'b': {}}, {'a': [0, 2], 'b': {'a/b': 1}}),
+    ({'a': [{'a': 1}, {'b': 2}]}, {'a': [{'b': 2}, {'a': 1}, {}]}),
+    ({'c': [{'a': None}], '0': {}, 'b': [0]}, {'c': None, '0': None, 'b': [[], {}], 'a': [1]}),
+    ({'0': 5, 'b': [0], 'c': [7]}, {'0': None, 'c': None, 'b': [[], 5]}),
+    ({'0': 5, '1': [5]}, {'0': None, '1': [5, 5]}),
+]
+
+
+def a5_finalizer_universe():
+    """The transformations kopf itself uses (C06/C08): finalizers.block_deletion / allow_deletion as patch fns."""
+    import functools
+    from kopf._cogs.structs import finalizers
+    block = functools.partial(finalizers.block_deletion, finalizer='f')
+    allow = functools.partial(finalizers.allow_deletion, finalizer='f')
+    metas = [_ABSENT, {}, {'finalizers': []}, {'finalizers': ['f']}, {'finalizers': ['g']}, {'finalizers': ['g', 'f']},
+             {'finalizers': ['f', 'g', 'f']}, {'name': 'n', 'finalizers': ['f']}, {'name': 'n'}]
+    merges = [{}, {'metadata': {'labels': {'a/b': '1'}}}, {'status': {'a': 1}}, {'metadata': {'finalizers': None}},
+              {'metadata': {'annotations': {'~x': None}}}, {'metadata': None}]
+    for meta in metas:
+        for patch in merges:
+            for fns in [(block,), (allow,), (block, allow), (allow, block), (block, block)]:
+                body = {'spec': {'a': 1}} if meta is _ABSENT else {'metadata': copy.deepcopy(meta), 'spec': {'a': 1}}
+                yield 'F', body, patch, fns
+
+
+def a5_random(rng, depth):
+    """A random JSON mapping of the given depth over a slightly larger alphabet (incl. bools and floats)."""
+    keys = A5_KEYS + ['', 'c', 'a~1b', '0']
+    leaves = A5_LEAVES + [True, False, 1.5, 'a/b', [{'a': None}], [[], {}], ['x', 'y'], [0, 1, 'x'], [1, 1]]
+
+    def value(d):
+        if d > 0 and rng.random() < 0.6:
+            return {rng.choice(keys): value(d - 1) for _ in range(rng.randint(0, 3))}
+        return copy.deepcopy(rng.choice(leaves))
+
+    def patch_for(body, d):
+        out = {}
+        for k in list(body) + [rng.choice(keys) for _ in range(rng.randint(0, 2))]:
+            r = rng.random()
+            if r < 0.35:
+                continue
+            if r < 0.5:
+                out[k] = None
+            elif r < 0.75 and d > 0 and isinstance(body.get(k, {}), dict):
+                out[k] = patch_for(body.get(k, {}), d - 1)        # a nested merge (never over a non-mapping)
+            elif r < 0.8 and d > 0:
+                out[k] = patch_for({}, d - 1)                       # possibly a mapping over a scalar
+            else:
+                out[k] = value(d - 1) if d > 0 else copy.deepcopy(rng.choice(leaves))
+        return out
+    body = {rng.choice(keys): value(depth - 1) for _ in range(rng.randint(0, 4))}
+    return body, patch_for(body, depth - 1)
+
+
+@bounded('A5', targets=['kopf._cogs.structs.patches.Patch.as_json_patch', 'kopf._cogs.structs.patches.Patch._apply_patch'],
+         props=['C18', 'C06', 'C08'], clauses=['merge_fidelity', 'fns_fidelity'],
+         universe='(body, merge-patch, fns): exhaustive over A: one top-level key t in {a, b, "a/b", "~x"} whose value on either '
+                  'side is absent, a leaf of {null, 0, 1, "", "x", [], [0], {}} or a one-member mapping over those keys/leaves, '
+                  'times 5 fn sets (none, append-to-list, set-nested-key, delete-keys, all three); B: two sibling members '
+                  'below one key, merged with 1-2 member nested patches; C: two top-level keys a, "a/b" with values in '
+                  '{absent, null, 1, "x", [0], {}, {"b": 1}} on both sides, with/without fns; F: metadata.finalizers shapes x '
+                  '6 merge-patches x kopf\'s own block_deletion/allow_deletion as fns; L: 11 directed list-diff cases; plus seeded random bodies/patches of '
+                  'depth <= 4 over a larger alphabet (bools, floats, "", "0", "a~1b" keys): 4000 quick / 100000 thorough',
+         trusted=['the `jsonpatch` library only through its result: the ops are applied by an independent RFC 6902 interpreter'])
+def A5(b):
+    """
+    BOUNDED (recursion over arbitrary JSON trees + the third-party `jsonpatch` diff: no deductive contract in reach).
+    For every (body, merge-style patch, transformation fns) of the universe:
+        apply6902(body, Patch(patch, fns=fns).as_json_patch(body))  ==  fns(merge7386(body, patch))
+    up to the presence of empty mappings, where merge7386 / apply6902 are independent implementations of RFC 7386 and
+    RFC 6902 (+ RFC 6901 pointers) written in this file: set, overwrite, delete (also of absent keys), recursive merge,
+    type changes (mapping over scalar, scalar over mapping), "/" and "~" in keys, list values replaced wholesale.
+    The patch must apply cleanly (RFC 6902 errors fail the case) and as_json_patch must not raise.  The reference body is
+    given both ways the code base does it: as an argument (patching.patch_obj) and as Patch(body=...) (admission).
+    Known finding F-C18-2: a mapping in the patch over a present non-mapping in the body (type change) raises TypeError
+    or is silently dropped -- excused exactly for the cases of in_type_change_class().
+    Known finding F-C18-3 (directed part L and the random part; partly depends on PYTHONHASHSEED): jsonpatch.from_diff itself emits a wrong patch
+    (stale list index after a remove, before a move) or raises TypeError on number-like keys -- excused exactly when
+    the library's diff of (body -> the reference result) is itself unfaithful, see in_library_diff_class().
+    """
+    from kopf._cogs.structs import bodies
+
+    def one(tag, body, patch, fns, n):
+        body0, patch0 = copy.deepcopy(body), copy.deepcopy(patch)
+        expected = merge7386(copy.deepcopy(body), patch)       # the reference works on its own copy
+        for fn in fns:
+            fn(expected)
+        clause = 'fns_fidelity' if fns else 'merge_fidelity'
+        known = in_type_change_class(body, patch)
+        b.case(key=(tag, n), nontrivial=bool(patch) or bool(fns))
+        why, ops, actual = None, None, None
+        try:
+            if n % 2 == 0:
+                ops = patches.Patch(patch, fns=fns).as_json_patch(body)
+            else:
+                ops = patches.Patch(patch, body=bodies.Body(body), fns=fns).as_json_patch()
+        except Exception as e:
+            why = f'as_json_patch raised {type(e).__name__}: {e}'
+        if why is None:
+            try:
+                actual = apply6902(body0, ops)
+            except PatchError as e:
+                why = f'the JSON patch does not apply: {e}'
+        if why is None and not similar(actual, expected):
+            why = 'the patched object differs from merge+fns'
+        excuse = None
+        if why is not None:         # classify a failure: the known classes are decided on the INPUTS, not on the failure
+            excuse = 'F-C18-2' if known else 'F-C18-3' if in_library_diff_class(body0, expected) else None
+        b.check(clause, why is None, excuse=excuse,
+                witness=lambda: dict(body=body0, merge_patch=patch0, fns=[getattr(f, '__name__', repr(f)) for f in fns],
+                                     json_patch=ops, expected=expected, actual=actual, why=why))
+
+    n = 0
+    for tag, body, patch, fns in itertools.chain(a5_universe(), a5_finalizer_universe()):
+        n += 1
+        one(tag, _fresh(body), _fresh(patch), fns, n)
+    count = 100000 if b.thorough else 4000
+    b.sampled(f'{count} seeded random (body, patch) pairs of depth <= 4 (seed {b.seed}); the parts A, B, C, F, L are exhaustive')
+    for i in range(count):
+        body, patch = a5_random(b.rng, b.rng.randint(1, 4))
+        fns = A5_FNS[i % len(A5_FNS)] if i % 3 == 0 else ()
+        n += 1
+        one('R', _fresh(body), _fresh(patch), fns, n)
